@@ -7,6 +7,7 @@ import RumaModel.Model.ScanLang
 import RumaModel.Model.ScanTag
 import RumaModel.Model.ScanPlainReply
 import RumaModel.Model.ScanWordBytes
+import RumaModel.Model.ScanCd
 import RumaModel.Model.IdsIp
 namespace Ruma.Driver.C17
 open Ruma Ruma.Proto Ruma.HttpHeaders
@@ -47,13 +48,21 @@ def showOut (f : α → String) : Scan.Out α → String
 
 def handle (toks : List String) : String :=
   match toks with
+  -- answered by the index-faithful model (explicit `bytes[pos]` / slice panics); the suffix-passing
+  -- model must give the same result (a theorem, `cd_index_model_eq_suffix_model`; re-checked here)
   | ["c17.cd", h] =>
     match parseH h with
     | some s =>
-      match parse s with
-      | .ok cd => "ok " ++ showType cd.dtype ++ " " ++
-          (match cd.filename with | none => "none" | some f => showH f)
-      | .error _ => "err"
+      let viaSuffix : ScanCd.Res := match parse s with
+        | .ok cd => .ok cd
+        | .error e => .err e
+      if ScanCd.parseI s ≠ viaSuffix then "models-differ"
+      else match ScanCd.parseI s with
+        | .ok cd => "ok " ++ showType cd.dtype ++ " " ++
+            (match cd.filename with | none => "none" | some f => showH f)
+        | .err _ => "err"
+        | .panic => "panic"
+        | .hang => "hang"
     | none => "bad-op"
   | ["c17.lossy", h] =>
     match parseH h with
